@@ -378,6 +378,8 @@ def job_(jc, spec):
     kind = spec[0]
     if kind == 'length':
         return job_length(jc, spec[1])
+    if kind == 'decode':
+        return job_decode(jc, spec[1])
     if kind == 'content':
         return job_content(jc, *spec[1:])
     _, ti, doc, gi = spec
@@ -506,6 +508,59 @@ def job_length(jc, sizeof_char):
         jc.obligation(eng, pc, z3.And(bv(ln) == want_len, bv(size) == want_size), ext, label=label,
                       what='length prefix decoded differently from AOSP decodeLength')
     eng.partition_guard()
+
+
+def job_decode(jc, utf8):
+    """getString on a pool whose one string has symbolic length prefixes (every 1- and 2-unit form) over a zero-filled
+    buffer, so that every declared length up to the bound is well formed: the result must be that many NUL characters
+    (the prefixes are skipped by their own widths, the terminator is found behind the data)"""
+    axml = setup()
+    MAXLEN = 140
+    bs = [fresh_byte('p%d' % i) for i in range(4)]
+    buf = bs + [0] * (2 * MAXLEN + 8)
+    if utf8:
+        two0 = (bs[0].e & 0x80) != 0
+        n16 = z3.If(two0, ((bs[0].e & 0x7f) << 8) | bs[1].e, bs[0].e)
+        b2 = z3.If(two0, bs[2].e, bs[1].e)
+        b3 = z3.If(two0, bs[3].e, bs[2].e)
+        two1 = (b2 & 0x80) != 0
+        n8 = z3.If(two1, ((b2 & 0x7f) << 8) | b3, b2)
+        want_len = n8
+        pre = [n8 <= MAXLEN, n16 <= MAXLEN, z3.Implies(z3.Not(two0), z3.Implies(z3.Not(two1), bs[2].e == 0)),
+               z3.Implies(z3.And(z3.Not(two0), z3.Not(two1)), bs[3].e == 0), z3.Implies(z3.Not(two0), z3.Implies(two1, bs[3].e == 0)),
+               z3.Implies(two0, z3.Implies(z3.Not(two1), bs[3].e == 0))]
+    else:
+        u0 = bs[0].e | (bs[1].e << 8)
+        u1 = bs[2].e | (bs[3].e << 8)
+        two0 = (u0 & 0x8000) != 0
+        want_len = z3.If(two0, ((u0 & 0x7fff) << 16) | u1, u0)
+        pre = [want_len <= MAXLEN, z3.Implies(z3.Not(two0), u1 == 0)]
+    eng = jc.new_engine(pre=pre)
+    label = 'getString with symbolic %s length prefixes' % ('UTF-8' if utf8 else 'UTF-16')
+    sb = axml.StringBlock.__new__(axml.StringBlock)
+
+    def go():
+        sb._cache = {}
+        sb.m_isUTF8 = utf8
+        sb.stringCount = 1
+        sb.m_stringOffsets = [0]
+        sb.m_charbuff = SBytes(buf)
+        r = sb.getString(0)
+        return len(r), r
+
+    def ext(m):
+        return dict(kind='decode', utf8=utf8, prefix=mbytes(m, bs).hex(), size=len(buf))
+    for pc, (k, r) in eng.explore(go, keep_pcs=True):
+        jc.reached('decode')
+        if k == 'exc':
+            jc.obligation(eng, pc, z3.BoolVal(False), ext, label=label, what='raised %r' % (r,))
+            continue
+        ln, text = r
+        zeros = z3.BoolVal(set(text) <= {'\x00'}) if isinstance(text, str) else z3.And([cpt(x) == 0 for x in text.c] + [z3.BoolVal(True)])
+        jc.obligation(eng, pc, z3.And(bv(ln) == want_len, zeros), ext, label=label,
+                      what='string with these length prefixes is not returned whole')
+    eng.partition_guard()
+    jc.sample(dict(case=label, paths=eng.st.paths), limit=4)
 
 
 # ------------------------------------------------------------------ string content
@@ -637,7 +692,7 @@ def run(ctx):
     ctx.functions_encoded = FUNCS
     ndocs = 6 if not ctx.thorough else 24
     docs = templates(ctx.seed, ndocs)
-    jobs = [('length', 1), ('length', 2)]
+    jobs = [('length', 1), ('length', 2), ('decode', True), ('decode', False)]
     rnd = random.Random(ctx.seed)
     ngroups = 0
     for ti, doc in enumerate(docs):
@@ -710,6 +765,23 @@ def replay(w):
         except BaseException as e:
             return True, 'length bytes %s: raised %r' % (w['bytes'], e)
         return tuple(got) != want, 'length bytes %s: decoded %r, AOSP gives %r' % (w['bytes'], got, want)
+    if w['kind'] == 'decode':
+        from androguard.core.axml import StringBlock
+        sb = StringBlock.__new__(StringBlock)
+        sb._cache, sb.m_isUTF8, sb.stringCount, sb.m_stringOffsets = {}, w['utf8'], 1, [0]
+        p = bytes.fromhex(w['prefix'])
+        sb.m_charbuff = p + bytes(w['size'] - 4)
+        if w['utf8']:
+            o = 2 if p[0] & 0x80 else 1
+            n = (((p[o] & 0x7f) << 8) | p[o + 1]) if p[o] & 0x80 else p[o]
+        else:
+            u0, u1 = p[0] | p[1] << 8, p[2] | p[3] << 8
+            n = (((u0 & 0x7fff) << 16) | u1) if u0 & 0x8000 else u0
+        try:
+            got = sb.getString(0)
+        except BaseException as e:
+            return True, 'prefix %s: raised %r' % (w['prefix'], e)
+        return got != '\x00' * n, 'length prefixes %s declare %d characters, getString returned %d' % (w['prefix'], n, len(got))
     blob = bytes.fromhex(w['blob'])
     try:
         valid, obs = _real_tree(blob)
